@@ -76,6 +76,47 @@ PROPS = {
              "thorough": {"checks": 25000, "shards": 16}},
         ],
     },
+    "C03": {
+        "level": "exploration",
+        "rule": "cases are (fact set 0-6 facts with scalar arrays only, optional parent location with 0-3 facts, query tree) with the "
+                "tree drawn from the grammar pattern | and[0..3] | or[0..3](shortCircuit?) | not | {} | code (templates whose value "
+                "the generator knows: constants true/false/null/undefined/0/''/'s'/objects/arrays, === comparisons of definitely-bound "
+                "variables, object literals binding constants or bound variables), depth <= 3, patterns mostly derived from the "
+                "facts; evaluated by Location.Query or as a rule condition with 1-3 incoming bindings (array variable in `when`); a "
+                "1-in-20 class of malformed trees must be rejected. Compared as multisets with a reference evaluator, on indexed and "
+                "linear state. Non-trivial = depth >= 2 with or/not, or >= 2 incoming bindings, or an empty and/or. Distinct = "
+                "distinct canonical JSON.",
+        "assumptions": COMMON_ASSUMPTIONS + [
+            "where the strict and lenient array readings give different multisets the case is counted but not judged",
+            "an indexed search of a (bound) pattern without indexable terms is a documented refusal and is accepted",
+            "code terms come from a template family with generator-known values; a variable is referenced only if bound on every path",
+        ],
+        "parts": [
+            {"name": "query", "mode": "plain", "test": "TestC03",
+             "quick": {"checks": 4000, "shards": 4},
+             "thorough": {"checks": 50000, "shards": 16}},
+        ],
+    },
+    "C04": {
+        "level": "exploration",
+        "rule": "cases are (0-4 rules with 1-3 actions each from {value, Env.out+value, throwing, non-compiling}, `when` with or "
+                "without an array variable (1-3 match bindings), condition from {none, pattern, join, or, never-matching} over "
+                "generated f/g facts (0-3 bindings), serialActions on 1/4) and an event; the work tree leaves, dispositions, values "
+                "(action returns ruleId/location/event/x/y/z as it sees them) and the Env.out channel are compared with the expected "
+                "executions. Non-trivial = >= 4 expected executions spread over >= 2 of the dimensions rules/when-bindings/"
+                "condition-bindings/actions. Distinct = distinct canonical JSON. A second part repeats the search under the race detector.",
+        "assumptions": COMMON_ASSUMPTIONS + [
+            "with a failing action in a serialActions rule only 'subset, no duplicates' is required (the statement allows the rest to be skipped)",
+        ],
+        "parts": [
+            {"name": "actions", "mode": "plain", "test": "TestC04",
+             "quick": {"checks": 1500, "shards": 4},
+             "thorough": {"checks": 20000, "shards": 16}},
+            {"name": "actions-race", "mode": "race", "test": "TestC04",
+             "quick": {"checks": 150, "shards": 4},
+             "thorough": {"checks": 1500, "shards": 16}},
+        ],
+    },
     "C05": {
         "level": "exploration",
         "rule": "cases are (pattern, data, initial bindings, typing mask) drawn by rapid: independent pairs, data "
@@ -120,6 +161,16 @@ TEXT = {
         "technique": _PBT + "stateful generated lifecycle histories vs reference model; unique action tags make stale rules observable",
         "level_text": "Generated-history exploration of add/overwrite/remove/disable/enable/reload/location-toggle interleavings with events. Not a proof.",
         "level_note": "Trusted: reference model; 3 rule ids (+3 inherited), fixed small pattern/event pools, <= 25 operations.",
+    },
+    "C03": {
+        "technique": _PBT + "grammar-generated query trees vs reference evaluator (multiset comparison), differential indexed/linear, Query vs rule-condition paths",
+        "level_text": "Generated exploration of query trees against a reference evaluator that implements the statement literally. Not a proof.",
+        "level_note": "Trusted: reference evaluator (props/c03_test.go) and refmatch; depth <= 3, arity <= 3, <= 9 facts; code terms limited to templates.",
+    },
+    "C04": {
+        "technique": _PBT + "generated rule sets/events vs expected execution multiset (tree leaves, values, Env.out); race-detector build as second oracle",
+        "level_text": "Generated exploration: every (rule, binding, action) execution is accounted for exactly once in tree, values and out channel; process death and data races are violations. Not a proof.",
+        "level_note": "Trusted: expected-execution calculator built on refmatch + C03 reference evaluator; action programs from four templates.",
     },
     "C05": {
         "technique": _PBT + "generated (pattern, data, bindings) vs independent brute-force matcher; substitution round-trip; metamorphic typed variants",
